@@ -220,8 +220,15 @@ func c08Run(r *kit.Run, idx int64, rng *rand.Rand) {
 		h := newBrokerHarness(cfg)
 		ctx := h.ctx
 		var subs []*subRec
+		// speeds are drawn up front: the generator is not safe for the
+		// concurrent late joiners
+		speeds := make([]kit.Speed, nstatic+nlate+nleave+1)
+		for k := range speeds {
+			speeds[k] = kit.RandSpeed(rng)
+		}
+		var nsub atomic.Int64
 		addSub := func(kind string) *subRec {
-			s := &subRec{Kind: kind, stop: make(chan struct{}), done: make(chan struct{}), speed: kit.RandSpeed(rng)}
+			s := &subRec{Kind: kind, stop: make(chan struct{}), done: make(chan struct{}), speed: speeds[int(nsub.Add(1))%len(speeds)]}
 			if s.speed == kit.SlowFirst || s.speed == kit.SlowLast {
 				s.speed = kit.Yield1
 			}
